@@ -180,7 +180,9 @@ def build(X):
 SWEEP_DOC = ("columns and a table whose names contain spaces, keywords, mixed case, non-ASCII text, quote characters and runs of quote characters: `from <table> | select "
              "{..}` compiled by the real prqlc for sql.sqlite and executed on a SQLite table with exactly those names; every value must come back under its own name")
 
-_NAMES = ["a b", "select", "MixedCase", "ünï çødé", 'x"y', 'a""b', 'q"""r', "it's", "table_0", "_expr_0", "with.dot"]
+_NAMES = ["a b", "select", "MixedCase", "ünï çødé", 'x"y', 'a""b', 'q"""r', "it's", "table_0", "_expr_0", "with.dot",
+          # blanks at the ends of a name are part of the name (round-8 seed C09-15)
+          "qty ", " lead"]
 
 
 def _sq(n):
@@ -215,7 +217,7 @@ def _try(table, names):
 
 
 def sweep():
-    return [_try("my table", _NAMES)] + [_try('t"x', [n]) for n in _NAMES]
+    return [_try("my table", _NAMES), _try("stock ", ["item", "qty "])] + [_try('t"x', [n]) for n in _NAMES]
 
 
 # names with a backslash, for the dialects that quote with a backtick: the name is emitted as it is (MySQL reads a backslash inside backticks literally)
